@@ -142,7 +142,7 @@ func main() {
 		scratch, _ := os.MkdirTemp("/var/tmp", "govc.")
 		defer os.RemoveAll(scratch)
 		for _, k := range sortedKeys(e.fnByKey) {
-			if !e.isRepoFn(e.fnByKey[k]) || !re.MatchString(k) || strings.Contains(k, "$bound") || strings.Contains(k, "$thunk") {
+			if (!e.isRepoFn(e.fnByKey[k]) && os.Getenv("GOVC_ALL") == "") || !re.MatchString(k) || strings.Contains(k, "$bound") || strings.Contains(k, "$thunk") {
 				continue
 			}
 			fc := e.contracts.funcs[k]
@@ -265,11 +265,15 @@ func runCheck(repo, verif, prop, tier string, verbose bool) int {
 	inlined := map[string]bool{}
 	notes := map[string]bool{}
 	var fnKeys []string
+	var depVerified []string
 	paths := 0
 	perFn := map[string]int{}
 	for _, fc := range fcs {
 		r := e.verifyFunction(fc)
 		fnKeys = append(fnKeys, fc.Key)
+		if fc.DepVerified {
+			depVerified = append(depVerified, fc.Key)
+		}
 		paths += r.Returns
 		n := 0
 		for _, o := range r.Obls {
@@ -461,6 +465,9 @@ func runCheck(repo, verif, prop, tier string, verbose bool) int {
 		"by_backend": st.ByBackend, "solver_seconds": st.Seconds, "solver_queries": st.Queries,
 		"load_seconds": loadS, "vcgen_seconds": genS, "inlined_callees": sortedBools(inlined),
 		"known_findings_reported": knownLines, "samples": samples,
+	}
+	if len(depVerified) > 0 {
+		cov["dependency_functions_verified_from_their_own_ssa"] = depVerified
 	}
 	if validated > 0 {
 		cov["assumed_contracts_validated_by_execution"] = fmt.Sprintf("%d comparisons of ip_is_global_unicast / ipnet_contains with net.IP.IsGlobalUnicast / (*net.IPNet).Contains on boundary and seeded random addresses: all agree", validated)
